@@ -257,6 +257,8 @@ def configs(tier):
             for sname, sc in scripts.items():
                 if tier == "quick" and (formalism == "helicity") == (sname in ("name:bw_ff", "tuple+reassign", "analytic", "decay-name-decay")):
                     continue
+                if formalism == "helicity" and "Sigma" in r and sname in ("name:bw_ff", "tuple+reassign", "analytic"):
+                    continue  # no unique L in the helicity formalism: the library refuses form factors there (ValueError, documented)
                 out.append({"name": f"{r}|{formalism}|{sname}", "reaction": r, "formalism": formalism, "script": sc})
     return out
 
